@@ -580,6 +580,8 @@ class CSSSerializer:
                 type_, val = item.type, item.value
                 if 'namespaceURI' == type_:
                     out.append(val, 'STRING')
+                elif 'prefix' == type_:
+                    out.append(helper.ident(val), type_)
                 else:
                     out.append(val, type_)
 
@@ -884,7 +886,8 @@ class CSSSerializer:
                 if isinstance(val, tuple):
                     # namespaceURI|name (element or attribute)
                     namespaceURI, name = val
-                    name = helper.ident(name)
+                    if type_ != 'universal':
+                        name = helper.ident(name)
                     if DEFAULTURI == namespaceURI or (
                         not DEFAULTURI and namespaceURI is None
                     ):
@@ -899,12 +902,19 @@ class CSSSerializer:
                                 )
                             except IndexError:
                                 prefix = ''
+                            else:
+                                prefix = helper.ident(prefix)
 
                         out.append(f'{prefix}|{name}', type_, space=False)
                 else:
-                    if type_ == 'class':
-                        # .name
-                        val = val[0] + helper.ident(val[1:])
+                    if type_ in ('class', 'id'):
+                        # .name #name
+                        val = val[0] + helper.ident(val[1:], hashname=type_ == 'id')
+                    elif type_ == 'attribute-selector' or (
+                        type_ == 'attribute-value' and val[:1] not in '"\''
+                    ):
+                        # name without namespace, value given as identifier
+                        val = helper.ident(val)
                     out.append(val, type_, space=False, keepS=True)
 
             return out.value()
@@ -1023,7 +1033,7 @@ class CSSSerializer:
                 if hasattr(part, 'cssText'):
                     out.append(part.cssText)
                 elif property.literalname == part:
-                    out.append(self._propertyname(property, part))
+                    out.append(helper.ident(self._propertyname(property, part)))
                 else:
                     out.append(part)
 
